@@ -81,7 +81,7 @@ pub fn decode(data: &[u8], colors: usize, bits: usize, columns: usize) -> Option
 #[cfg(test)]
 mod tests {
     use super::*;
-    use crate::testutil::Rng;
+    use crate::refimpl::testutil::Rng;
 
     #[test]
     fn geometry() {
